@@ -1,4 +1,5 @@
 import PyrollModel.OutCS
+import PyrollModel.OutCSCache
 import PyrollModel.EvalDriver
 /-
   Line-protocol driver of the outgoing-cross-section model (C08).  State: the current contour and environment.
@@ -6,14 +7,25 @@ import PyrollModel.EvalDriver
     contour <x bits> <y bits> <x bits> <y bits> ...   -> ok <n>          (roll contour = groove contour)
     env k=<bits> k=<bits> ...                          -> ok              (`@valid` = 0 makes `is_valid` answer False)
     run <program>                                      -> `ok <x y x y ...> # <meas>=<bits> ...` | `raised <exc> # ...`
+    cache <two|three> <g0 bits> <g1 bits> ...          -> `ok used=<bits|none> lines=.. ucs=.. gap=..`: one `Unit.solve` of a fresh
+                                                          pass in the model `OutCS.Cache` (generated memo, `reevaluate_cache`
+                                                          chain, loop body, `init_solve`); the gap hook answers g0 during
+                                                          `init_solve` and g_k in iteration k
     <formula name> k=<bits> ...                        -> EvalDriver (generated formula table)
 -/
 namespace OutCSDriver
 open OutCS PassGeom
 
+structure CacheCfg where
+  memo : Cache.Memo
+  chain : List (List Cache.ROp)
+  loop : List Cache.LStep
+  init : List Cache.IOp
+
 structure Cfg where
   progs : List (String × Prog)
   table : List (String × Expr)
+  caches : List (String × CacheCfg) := []
 
 structure St where
   contour : List (Pt Float) := []
@@ -55,6 +67,15 @@ def handle (cfg : Cfg) (st : St) (line : String) : St × String :=
       match p.run S ρ with
       | .ok g => (st, "ok " ++ showPts g ++ " # " ++ ms)
       | .raised e => (st, "raised " ++ e ++ " # " ++ ms)
+  | "cache" :: which :: g0 :: rest =>
+    match cfg.caches.find? (fun p => p.1 = which), floatOfBitsStr g0, rest.mapM floatOfBitsStr with
+    | some (_, c), some a, some gs =>
+      let s := Cache.solve c.memo c.chain c.loop c.init a gs ({} : Cache.St Float)
+      let sh := fun (o : Option Float) => match o with
+        | some x => floatToBitsStr x
+        | none => "none"
+      (st, s!"ok used={sh s.used.head?} lines={sh s.lines} ucs={sh s.ucs} gap={sh s.gapC}")
+    | _, _, _ => (st, "bad-op")
   | _ => (st, EvalDriver.handle cfg.table line)
 
 partial def loop (cfg : Cfg) (h : IO.FS.Stream) (st : St) : IO Unit := do
